@@ -29,6 +29,8 @@ type Ctx struct {
 	GOARCH   string
 	LoadNote string
 	astOf    map[*ssa.Function]ast.Node
+
+	foldCache map[string]*foldResult
 }
 
 // load loads dir's ./... with full syntax for dependencies and builds SSA.
